@@ -11,3 +11,7 @@ import Xrfmv.Props.C12
 #print axioms Xrfmv.Props.C12.far_is_prior
 #print axioms Xrfmv.Props.C12.soft_tree_valid
 #print axioms Xrfmv.Props.C12.predict_proba_valid_built
+#print axioms Xrfmv.Props.C12.clampNorm_continuous
+#print axioms Xrfmv.Props.C12.probasPrevInv_continuous
+#print axioms Xrfmv.Props.C12.leafOut_continuous
+#print axioms Xrfmv.Props.C12.far_limit_prior
